@@ -316,10 +316,15 @@ def find_irrelevant_type(etype: tp.Type, types: List[tp.Type],
         return None
 
     if isinstance(etype, tp.TypeParameter):
-        if etype.bound is None or etype.bound == factory.get_any_type():
+        # Follow the chain of bounds (T : U, U : Foo) up to the first bound
+        # that is not a type variable itself.
+        bound = etype.bound
+        while bound is not None and bound.is_type_var():
+            bound = bound.bound
+        if bound is None or bound == factory.get_any_type():
             return choose_type(types, only_regular=True)
         else:
-            etype = etype.bound
+            etype = bound
 
     types = [_cls2type(t) for t in types]
     supertypes = find_supertypes(etype, types, include_self=True,
